@@ -56,9 +56,14 @@ def run_cell(args):
     validate = getattr(mod, "CROSS_VALIDATE", True)
     ndiv = 0
     stop_cell = False
+    cell_seconds = getattr(mod, "CELL_SECONDS", 240)
     try:
         for rec in eng.explore(fn, max_paths=getattr(mod, "MAX_PATHS", 200000)):
             if stop_cell:
+                res["exhaustive"] = False
+                break
+            if time.time() - t0 > cell_seconds:
+                res["engine"].append("cell budget of %ds exhausted: cell=%s" % (cell_seconds, json.dumps(cell)))
                 res["exhaustive"] = False
                 break
             ctx = holder[0]
@@ -184,6 +189,8 @@ def load_known(pid):
 
 
 def main(argv=None):
+    import warnings
+    warnings.filterwarnings("ignore", category=FutureWarning)
     ap = argparse.ArgumentParser()
     ap.add_argument("prop")
     ap.add_argument("--tier", default=os.environ.get("VERIF_TIER", "quick"))
